@@ -86,6 +86,7 @@ type vAct struct {
 	Adv    vAdv   `json:"adv"`
 	Aop    string `json:"aop"`
 	Dst    string `json:"dst"`
+	Tha    string `json:"tha"`
 	Target int    `json:"target"`
 	Intf   string `json:"intf"`
 	Kind   string `json:"kind"`
@@ -97,6 +98,7 @@ type vItem struct {
 	Intf string `json:"intf"`
 	Aop  string `json:"aop"`
 	Dst  string `json:"dst"`
+	Tha  string `json:"tha"`
 	Nk   string `json:"nk"`
 }
 
@@ -260,8 +262,10 @@ func (r *vRig) close() {
 	}
 }
 
-// ask pushes one ARP frame through the real arpResponder.processRequest.
-func (e *vArpEnd) ask(aop, dst string, target net.IP) string {
+// ask pushes one ARP frame through the real arpResponder.processRequest.  dst names the
+// destination of the Ethernet frame, tha the target hardware address inside the ARP packet
+// (independent of each other; "" = the same as the Ethernet destination).
+func (e *vArpEnd) ask(aop, dst, tha string, target net.IP) string {
 	op := arp.OperationRequest
 	switch aop {
 	case "reply":
@@ -279,7 +283,16 @@ func (e *vArpEnd) ask(aop, dst string, target net.IP) string {
 		dmac = append(net.HardwareAddr{}, e.mac...)
 		dmac[5] ^= 0x10
 	}
-	pkt, err := arp.NewPacket(op, vReqMAC, vReqIP, dmac, target)
+	tmac := dmac
+	switch tha {
+	case "zero": // ordinary requests and Linux' unicast re-validation probes
+		tmac = net.HardwareAddr{0, 0, 0, 0, 0, 0}
+	case "self":
+		tmac = e.mac
+	case "other":
+		tmac = vOtherMAC
+	}
+	pkt, err := arp.NewPacket(op, vReqMAC, vReqIP, tmac, target)
 	kit.Must(err)
 	pb, _ := pkt.MarshalBinary()
 	fb, _ := (&ethernet.Frame{Destination: dmac, Source: vReqMAC, EtherType: ethernet.EtherTypeARP, Payload: pb}).MarshalBinary()
@@ -316,6 +329,10 @@ func (e *vNdpEnd) ask(kind string, target net.IP, stray time.Duration) string {
 	case "ns":
 		m = &ndp.NeighborSolicitation{TargetAddress: target,
 			Options: []ndp.Option{&ndp.LinkLayerAddress{Direction: ndp.Source, Addr: vReqMAC}}}
+	case "ns2": // the source option is not the first option
+		m = &ndp.NeighborSolicitation{TargetAddress: target,
+			Options: []ndp.Option{&ndp.LinkLayerAddress{Direction: ndp.Target, Addr: vOtherMAC},
+				&ndp.LinkLayerAddress{Direction: ndp.Source, Addr: vReqMAC}}}
 	case "nsNoLL":
 		m = &ndp.NeighborSolicitation{TargetAddress: target,
 			Options: []ndp.Option{&ndp.LinkLayerAddress{Direction: ndp.Target, Addr: vReqMAC}}}
@@ -466,6 +483,18 @@ type vQ struct {
 	Res  string `json:"res"`
 }
 
+type vAQ struct {
+	Ip   int    `json:"ip"`
+	Intf string `json:"intf"`
+	Dst  string `json:"dst"`
+	Tha  string `json:"tha"`
+	Res  string `json:"res"`
+}
+
+// the ARP part of the battery: a unicast probe with a zero target hardware address, an ordinary
+// broadcast request, and a frame for another station that names the node inside the packet
+var vArpBattery = [][2]string{{"self", "zero"}, {"bcast", "zero"}, {"other", "self"}}
+
 type vFrame struct {
 	Intf string `json:"intf"`
 	Ip   int    `json:"ip"`
@@ -486,7 +515,7 @@ type vObs struct {
 	Frames []vFrame          `json:"frames"`
 	Gstat  int               `json:"gstat"`
 	Q      []vQ              `json:"q"`
-	Arpq   []vQ              `json:"arpq"`
+	Arpq   []vAQ             `json:"arpq"`
 	Ndpq   []vQ              `json:"ndpq"`
 }
 
@@ -534,7 +563,7 @@ func vStep(r *vRig, act vAct, o *vObs) {
 			return o.Frames[i].Ip < o.Frames[j].Ip
 		})
 	case "Arp":
-		o.Res = r.arp[act.Intf].ask(act.Aop, act.Dst, kit.AnnIP(act.Target))
+		o.Res = r.arp[act.Intf].ask(act.Aop, act.Dst, act.Tha, kit.AnnIP(act.Target))
 	case "Ndp":
 		if e := r.ndp[act.Intf]; e != nil {
 			o.Res = e.ask(act.Kind, kit.AnnIP(act.Target), vStray)
@@ -562,7 +591,10 @@ func vBattery(r *vRig, in *vInit, o *vObs) {
 	for _, n := range r.resp {
 		for _, ip := range all {
 			if ip < 100 {
-				o.Arpq = append(o.Arpq, vQ{Ip: ip, Intf: n, Res: r.arp[n].ask("request", "self", kit.AnnIP(ip))})
+				for _, c := range vArpBattery {
+					o.Arpq = append(o.Arpq, vAQ{Ip: ip, Intf: n, Dst: c[0], Tha: c[1],
+						Res: r.arp[n].ask("request", c[0], c[1], kit.AnnIP(ip))})
+				}
 			} else if e := r.ndp[n]; e != nil {
 				o.Ndpq = append(o.Ndpq, vQ{Ip: ip, Intf: n, Res: e.ask("ns", kit.AnnIP(ip), vStray)})
 			}
@@ -582,7 +614,7 @@ func vReplayWalk(w kit.Walk, b *kit.Block) {
 		if act.Adv.Ifs == nil {
 			act.Adv.Ifs = []string{}
 		}
-		o := &vObs{W: w.ID, I: i, Act: raw, Ndp: vNdpIf != nil, Frames: []vFrame{}, Q: []vQ{}, Arpq: []vQ{}, Ndpq: []vQ{}}
+		o := &vObs{W: w.ID, I: i, Act: raw, Ndp: vNdpIf != nil, Frames: []vFrame{}, Q: []vQ{}, Arpq: []vAQ{}, Ndpq: []vQ{}}
 		vStep(r, act, o)
 		o.Spam = r.drainSpam()
 		o.Ips, o.Refcnt, o.Groups = r.project(in.Svcs)
@@ -617,6 +649,7 @@ type vEv struct {
 	Intf   string `json:"intf"`
 	Aop    string `json:"aop"`
 	Dst    string `json:"dst"`
+	Tha    string `json:"tha"`
 	Nk     string `json:"nk"`
 	Res    string `json:"res"`
 	Refcnt []vCnt `json:"refcnt"`
@@ -647,8 +680,8 @@ func vQuery(r *vRig, j int, it vItem, stray time.Duration) vEv {
 	useArp := j < 2
 	switch {
 	case it.K == "Arp" && useArp && it.Ip < 100:
-		ev.Intf, ev.Aop, ev.Dst = intf, it.Aop, it.Dst
-		vCall(&ev, func() string { return r.arp[intf].ask(it.Aop, it.Dst, kit.AnnIP(it.Ip)) })
+		ev.Intf, ev.Aop, ev.Dst, ev.Tha = intf, it.Aop, it.Dst, it.Tha
+		vCall(&ev, func() string { return r.arp[intf].ask(it.Aop, it.Dst, it.Tha, kit.AnnIP(it.Ip)) })
 	case it.K == "Ndp" && !useArp && it.Ip >= 100 && r.ndp[intf] != nil:
 		ev.Intf, ev.Nk = intf, it.Nk
 		vCall(&ev, func() string { return r.ndp[intf].ask(it.Nk, kit.AnnIP(it.Ip), stray) })
